@@ -116,31 +116,32 @@ func (s *sim) generate() (Action, bool) {
 		}
 	}
 	if live == nil {
-		id := fmt.Sprintf("id%d", len(s.sess))
+		id := []string{"id%d", "ID%d", "k %d", "a/b%d", "%%41%d", "k%d+"}[r.Intn(6)]
+		id = fmt.Sprintf(id, len(s.sess))
 		if r.Chance(1, 2) {
-			add(Action{K: "open_in", S: len(s.sess), ID: id}, w["open"])
+			add(Action{K: "open_in", S: len(s.sess), ID: id, N: r.Intn(3)}, w["open"])
 		} else {
-			add(Action{K: "open_out", S: len(s.sess), ID: id}, w["open"])
+			add(Action{K: "open_out", S: len(s.sess), ID: id, N: r.Intn(3)}, w["open"])
 		}
 		add(Action{K: "open_io", S: len(s.sess)}, w["io"])
 	} else {
 		if live.io == nil {
 			if live.in == nil {
-				add(Action{K: "open_in", S: live.n}, w["open"]*3)
+				add(Action{K: "open_in", S: live.n, N: r.Intn(3)}, w["open"]*3)
 			}
 			if live.out == nil {
-				add(Action{K: "open_out", S: live.n}, w["open"]*3)
+				add(Action{K: "open_out", S: live.n, N: r.Intn(3)}, w["open"]*3)
 			}
 		}
 		// an attempt that must be refused: wrong ID, a duplicate half, or /io
 		has := live.in != nil || live.out != nil || live.io != nil
 		if has {
 			k := []string{"open_in", "open_out", "open_io"}[r.Intn(3)]
-			badID := "$livex" // resolved when applied: the live session's ID plus a suffix
+			badID := []string{"$livex", "$live^", "$live<"}[r.Intn(3)] // resolved when applied: the live session's ID plus a suffix, in the other case, or cut short
 			if r.Chance(1, 2) && (live.io != nil || k == "open_in" && live.in != nil || k == "open_out" && live.out != nil) {
 				badID = "$live" // same ID, but that half is taken
 			}
-			add(Action{K: k, S: len(s.sess), ID: badID, Which: "bad"}, w["bad"])
+			add(Action{K: k, S: len(s.sess), ID: badID, Which: "bad", N: r.Intn(3)}, w["bad"])
 		}
 		add(Action{K: "out", S: live.n, B: []byte(fmt.Sprintf("<out%d.%d>\xff\x00\r\n", live.n, len(live.sentOut)))}, w["out"])
 		add(Action{K: "close", S: live.n, Which: []string{"", "", "out"}[r.Intn(3)], Reset: r.Chance(1, 3)}, w["close"])
